@@ -12,7 +12,8 @@ PURE_PREFIXES = [
     "std::fmt::", "std::rc::", "std::cell::", "std::cmp::", "std::ops::", "std::clone::", "std::convert::", "std::boxed::",
     "std::borrow::", "std::array::", "std::hint::", "std::mem::", "std::default::", "std::hash::", "std::num::", "std::char::",
     "std::rt::panic_fmt", "std::sync::OnceLock::", "std::collections::HashMap::", "std::collections::HashSet::",
-    "std::collections::hash_map::", "std::collections::hash_set::", "alloc::", "phf::", "color_eyre::eyre::", "eyre::",
+    "std::collections::hash_map::", "std::collections::hash_set::", "std::collections::BTreeMap::", "std::collections::BTreeSet::",
+    "std::collections::btree_map::", "std::collections::btree_set::", "std::collections::VecDeque::", "alloc::", "phf::", "color_eyre::eyre::", "eyre::",
     "rand::Rng::", "rand::RngCore::", "rand::TryRngCore::", "rand::SeedableRng::seed_from_u64", "rand_chacha::", "rand_core::",
     "arbitrary::Unstructured::", "arbitrary::Arbitrary::", "<", "std::intrinsics::", "std::ptr::", "std::marker::", "std::any::",
     "std::f64::", "std::panicking::", "std::process::abort",
@@ -187,7 +188,11 @@ def rule_C07(env):
     # bin: batch mode and the protocol choice
     n_bin = bin_rules(env, res)
     res.floor("calls", 100, "external call sites reachable from generate*")
-    res.floor("hash-iter", 3, "hash-container iterations (the three memo.keys() sites)")
+    # vacuity guard: while a hash container is part of the generator state, its iteration sites must have been seen
+    hash_fields = [(an, f["name"]) for an, a in prog.adts.items() for v in a.get("variants", []) for f in v.get("fields", [])
+                   if re.search(r"collections::Hash(Map|Set)<", f.get("ty", "")) and re.search(r"state::State$|generator::Generator$", str(an))]
+    if hash_fields:
+        res.floor("hash-iter", 1, "hash-container iterations (State has hash-typed fields %s)" % (hash_fields[:3],))
     res.floor("lazy-init", 1, "lazy statics (STDLIB_MODULES)")
     res.coverage = {"explanation": "whole-program effect analysis on the resolved call graph: every external callee reachable from Generator::generate / "
                     "generate_from_arbitrary (incl. closures, fn items and every impl behind dyn Mutator) is either on the deny list (time, env, pid, thread, OS RNG, "
